@@ -775,3 +775,51 @@ Proof.
   split; [reflexivity|]. split; [reflexivity|]. split; [vm_compute; reflexivity|].
   eexists. vm_compute. reflexivity.
 Qed.
+
+(* ---- round 7: the resume marker names an iteration of this run ---- *)
+Lemma marker_step_bound : forall o i m bound,
+  i < bound -> (forall x, m = Some x -> x < bound) ->
+  forall x, marker_step o i m = Some x -> x < bound.
+Proof.
+  intros o i m bound Hi Hm x. unfold marker_step.
+  destruct (dry o); [apply Hm|]. destruct (outdir o); [|apply Hm].
+  intro H; inversion H; subst; exact Hi.
+Qed.
+
+Lemma marker_loop_bound : forall v o e is s m bound,
+  (forall i, In i is -> i < bound) -> (forall x, m = Some x -> x < bound) ->
+  forall x, marker_loop v o e is s m = Some x -> x < bound.
+Proof.
+  intros v o e is. induction is as [|i r IH]; intros s m bound Hin Hm x; simpl.
+  - apply Hm.
+  - destruct (iteration v o e i s) as [[s' b]|er].
+    + destruct b.
+      * apply marker_step_bound; [apply Hin; left; reflexivity|exact Hm].
+      * apply IH; [intros j Hj; apply Hin; right; exact Hj|].
+        apply marker_step_bound; [apply Hin; left; reflexivity|exact Hm].
+    + apply Hm.
+Qed.
+
+Lemma marker_below_total : forall v o e x,
+  (forall l, last0 e = Some l -> l < total o) ->
+  marker_after v o e = Some x -> x < total o.
+Proof.
+  intros v o e x H0. unfold marker_after.
+  destruct (prepare v o e) as [[[[s first] loaded] early]|er]; [|apply H0].
+  destruct early; [apply H0|].
+  apply marker_loop_bound; [|exact H0].
+  intros i Hi. apply in_seq in Hi. lia.
+Qed.
+
+Lemma marker_dry_unchanged : forall v o e,
+  dry o = true -> marker_after v o e = last0 e.
+Proof.
+  intros v o e Hd. unfold marker_after.
+  destruct (prepare v o e) as [[[[s first] loaded] early]|er]; [|reflexivity].
+  destruct early; [reflexivity|].
+  generalize (seq first (total o - first)) as is. intro is. revert s.
+  induction is as [|i r IH]; intro s; simpl; [reflexivity|].
+  unfold marker_step at 1 2. rewrite Hd.
+  destruct (iteration v o e i s) as [[s' b]|er]; [|reflexivity].
+  destruct b; [reflexivity|]. apply IH.
+Qed.
